@@ -4,6 +4,7 @@ from __future__ import annotations
 
 import itertools
 import multiprocessing
+import pickle
 from pathlib import Path
 from typing import TYPE_CHECKING, Any
 
@@ -203,7 +204,15 @@ class DictArray(StorageBase):
         path = self._path()
         if not path.is_file():
             return
-        self._dict.update(load(path))
+        data = load(path)
+        try:
+            self._dict.update(data)
+        except (pickle.PicklingError, AttributeError, TypeError):
+            # A manager-backed mapping receives its values via `pickle`, which cannot
+            # handle e.g. instances of classes that were loaded by value (defined in the
+            # `__main__` of the process that ran the pipeline). Keep a local copy instead,
+            # which is sufficient for reading the results.
+            self._dict = data
 
     @property
     def dump_in_subprocess(self) -> bool:
